@@ -357,16 +357,25 @@ def gen_allowed_keys(module) -> str:
     body = list(hits[0].body)
     if hits[0].orelse:
         raise Unsupported("allowed_keys `if` has an else")
-    if ast.unparse(body[-1]) != "allowed_keys_str = ', '.join(map(repr, allowed_keys))":
-        raise Unsupported("allowed_keys_str is not ', '.join(map(repr, allowed_keys))")
-    body = body[:-1]
+    # the last two statements render the set: a literal `{k1, k2}` of repr'd keys, or `set()` when empty
+    tail = [ast.unparse(b) for b in body[-2:]]
+    if tail != ["allowed_keys_str = ', '.join(map(repr, allowed_keys))",
+                "allowed_keys_str = f'{{{allowed_keys_str}}}' if allowed_keys else 'set()'"]:
+        raise Unsupported(f"rendering of allowed_keys changed: {tail}")
+    body = body[:-2]
+    for b in body:
+        if "allowed_keys_str" in ast.unparse(b):
+            raise Unsupported("allowed_keys_str used inside the set construction")
     src_txt = ast.unparse(fn)
     # what the set is built from, and how it is used (text checks, fail closed)
     need = [
         "alias = self.__get_field_alias(fname, ftype, metadata, config)",
         "filtered_fields.append((fname, alias, ftype))",
+        "if config.forbid_extra_keys:\n",
+        "with self.indent('try:'):",
+        "if config.forbid_extra_keys:\n",
         "self.add_line('d_keys = set(d.keys())')",
-        "self.add_line(f'forbidden_keys = d_keys - {{{allowed_keys_str}}}')",
+        "self.add_line(f'forbidden_keys = d_keys - {allowed_keys_str}')",
         "with self.indent('if forbidden_keys:'):",
         "self.add_line('raise ExtraKeysError(forbidden_keys,cls) from None')",
         "for fname, alias, ftype in filtered_fields:",
@@ -376,12 +385,12 @@ def gen_allowed_keys(module) -> str:
     for t in need:
         p = src_txt.find(t, pos + 1)
         if p < 0:
-            raise Unsupported(f"expected statement not found (in order): {t}")
+            raise Unsupported(f"expected statement not found (in order): {t.strip()}")
         pos = p
-    if src_txt.count("allowed_keys_str") != 2 or src_txt.count("forbidden_keys") != 3:
+    if src_txt.count("allowed_keys_str") != 4 or src_txt.count("forbidden_keys") != 3:
         raise Unsupported("allowed_keys_str / forbidden_keys used in an unexpected way")
-    # the check is emitted under `if config.forbid_extra_keys:` and only for classes with fields
-    if src_txt.count("if config.forbid_extra_keys:") != 2 or "if filtered_fields:" not in src_txt:
+    # the check is emitted under `if config.forbid_extra_keys:` only, for every class (also one without fields)
+    if src_txt.count("if config.forbid_extra_keys:") != 2 or "if filtered_fields:" in src_txt:
         raise Unsupported("forbid_extra_keys guard structure changed")
     f = ast.FunctionDef(
         name="allowed_keys",
